@@ -40,9 +40,12 @@ def main(argv=None):
         return 2
     if a.only:
         tasks = [t for t in tasks if a.only in t.get("label", "")]
-    # biggest tasks first (rough proxy), deterministic order
+    # biggest tasks first (cost hint), stable order otherwise
+    tasks.sort(key=lambda t: -t.get("cost", 0))
     print("%s tier=%s seed=%d: %d tasks" % (prop, tier, seed, len(tasks)), flush=True)
     stats, errors = runner.run_pool(modname, tasks, workers=a.workers)
+    if os.environ.get("XMC_TIMING"):
+        print("    pool done at %.1fs" % (time.time() - t0), flush=True)
     if hasattr(mod, "post"):
         mod.post(stats, tier, seed)
     return runner.finish(prop, tier, seed, mod.LEVEL, stats, errors, t0, mod.RULE, mod.ASSUMPTIONS,
